@@ -137,6 +137,55 @@ def src_tokens(slice_text):
     return out
 
 
+
+RUST_KW = {"as", "break", "const", "continue", "crate", "else", "enum", "extern", "false", "fn", "for", "if", "impl", "in", "let",
+           "loop", "match", "mod", "move", "mut", "pub", "ref", "return", "self", "Self", "static", "struct", "super", "trait",
+           "true", "type", "unsafe", "use", "where", "while", "dyn", "async", "await"}
+
+
+def detect_renames(btxt, stxt):
+    """consistent identifier renames between the registered copy and the source slice: every occurrence of `a`
+    became `b`, `b` is new, `a` is gone.  (A renamed local/parameter is a harmless edit; annotations that mention it follow.)"""
+    ident = re.compile(r"[A-Za-z_][A-Za-z0-9_]*\Z")
+    sm = difflib.SequenceMatcher(None, btxt, stxt, autojunk=False)
+    pairs = {}
+    bad = set()
+    for tag, i1, i2, j1, j2 in sm.get_opcodes():
+        if tag != "replace" or (i2 - i1) != (j2 - j1):
+            continue
+        for a, b in zip(btxt[i1:i2], stxt[j1:j2]):
+            if a == b:
+                continue
+            if ident.match(a) and ident.match(b) and a not in RUST_KW and b not in RUST_KW:
+                if pairs.get(a, b) != b:
+                    bad.add(a)
+                pairs[a] = b
+    out = {}
+    for a, b in pairs.items():
+        if a in bad or b in btxt or a in stxt or list(pairs.values()).count(b) != 1:
+            continue
+        if btxt.count(a) != stxt.count(b):
+            continue
+        out[a] = b
+    return out
+
+
+def apply_renames(region, renames):
+    """rename identifiers in the whole annotated region (code, annotations, rewrite markers)"""
+    out = []
+    for lx in lex(region):
+        if lx.kind == "ident" and lx.text in renames:
+            out.append(renames[lx.text])
+        elif lx.kind == "bcomment" and lx.text.startswith("/*@R"):
+            t = lx.text
+            for a, b in renames.items():
+                t = re.sub(r"(?<![A-Za-z0-9_])%s(?![A-Za-z0-9_])" % re.escape(a), b, t)
+            out.append(t)
+        else:
+            out.append(lx.text)
+    return "".join(out)
+
+
 def merge(segs, base, stoks, where):
     """token-level three-way merge; returns (text, changes)"""
     btxt = [b[0] for b in base]
@@ -198,6 +247,11 @@ def body_open_seg(segs):
     depth = 0
     seen_paren = False
     for n, s in enumerate(segs):
+        if s.prov == "rew":
+            # a rewritten parameter list (R15) still is the parameter list
+            if "(" in s.text:
+                seen_paren = True
+            continue
         if s.prov != "code":
             continue
         if s.text in ("(", "["):
@@ -330,7 +384,15 @@ class Unit:
         last_line = text.count("\n", 0, e) + 1
         stoks = src_tokens(slice_text)
         segs, base, rewrites = parse_region(region, where)
+        renames = detect_renames([b[0] for b in base], [t for t, _ in stoks])
+        if renames:
+            region = apply_renames(region, renames)
+            segs, base, rewrites = parse_region(region, where)
         merged, changes = merge(segs, base, stoks, where)
+        if renames:
+            changes = [{"op": "rename", "was": a, "now": b} for a, b in sorted(renames.items())] + changes
+            if merged is None:
+                merged = region
         out = region if merged is None else merged
         roundtrip(out, stoks, where)
         n_ins = sum(1 for x in segs if x.prov == "ins")
